@@ -112,6 +112,7 @@ def _front_case(draw, unique=True):
         if s["kind"] != "history" and d.chance(10):
             s["meta"] = {"m": d.int(0, 9)}
     _unique_names(spec, unique)
+    spec["_grouping"] = d.pick(["separate", "left", "right", "right", "mixed"])
     from ..render import finalize
 
     finalize(spec)
@@ -147,7 +148,7 @@ def _disc_case(draw):
         "source": draw(st.sampled_from(["module", "provider", "subclass"])),
         "omit": draw(st.sampled_from([None, None, "action", "guard", "service"])),
         "place": draw(st.sampled_from(["transition", "entry", "choose", "invoke-handler", "always"])),
-        "composite": draw(st.booleans()),
+        "composite": draw(st.sampled_from([0, 0, 1, 2, 3])),
     }
 
 
@@ -246,6 +247,29 @@ def build_python(spec, style, logic):
                 else:
                     transitions.append(src.to(objs[path_to_id(mid, t["target"])], event=ev, guard=g, actions=acts,
                                               reenter=bool(t.get("reenter"))))
+    # ---- the `|` operator: combine runs of 2-3 consecutive transitions in the drawn association
+    #      (order of candidates must stay the declared one: t1 | (t2 | t3) == (t1 | t2) | t3)
+    grouping = spec.get("_grouping", "separate")
+    if grouping != "separate" and len(transitions) >= 2:
+        grouped, i, flip = [], 0, 0
+        while i < len(transitions):
+            run = transitions[i:i + 3]
+            i += 3
+            if len(run) == 1:
+                grouped.append(run[0])
+                continue
+            mode = grouping if grouping != "mixed" else ("left", "right")[flip % 2]
+            flip += 1
+            if mode == "left":
+                g_ = run[0]
+                for t_ in run[1:]:
+                    g_ = g_ | t_
+            else:
+                g_ = run[-1]
+                for t_ in reversed(run[:-1]):
+                    g_ = t_ | g_
+            grouped.append(g_)
+        transitions = grouped
     # root-level properties
     root_kw = {}
     if root.get("on"):
@@ -444,7 +468,15 @@ def check_disc(case, res: CaseResult):
     gcfg = None
     if g_name:
         gobj = {"type": cfgname(g_name), "params": {"state": "#m.a"}} if g_name == "stateIn" else cfgname(g_name)
-        gcfg = {"type": "and", "children": [gobj]} if case["composite"] else gobj
+        comp = case["composite"]
+        if comp is True or comp == 1:
+            gcfg = {"type": "and", "children": [gobj]}
+        elif comp == 2:   # a composite nested inside a composite: and(not(not(g)))
+            gcfg = {"type": "and", "children": [{"type": "not", "children": [{"type": "not", "children": [gobj]}]}]}
+        elif comp == 3:   # not(or(not(g))) spelled through params.guards
+            gcfg = {"type": "not", "params": {"guards": [{"type": "or", "children": [{"type": "not", "children": [gobj]}]}]}}
+        else:
+            gcfg = gobj
         t["guard"] = gcfg
     a_state = {"on": {"GO": t}}
     b_state = {}
